@@ -456,3 +456,13 @@ package protocol
 //@   ensures err == nil ==> d.GroupRecords[0].Type == t1 && d.GroupRecords[0].NumberOfSources == 1 && len(d.GroupRecords[0].SourceAddresses) == 1 && bytes_eq(d.GroupRecords[0].SourceAddresses[0], 0, s1, 0, 4) && bytes_eq(d.GroupRecords[0].MulticastAddress, 0, g1, 0, 4)
 //@   ensures err == nil ==> d.GroupRecords[1].Type == t2 && d.GroupRecords[1].NumberOfSources == 2 && len(d.GroupRecords[1].SourceAddresses) == 2 && bytes_eq(d.GroupRecords[1].SourceAddresses[0], 0, s2, 0, 4) && bytes_eq(d.GroupRecords[1].SourceAddresses[1], 0, s3, 0, 4) && bytes_eq(d.GroupRecords[1].MulticastAddress, 0, g2, 0, 4)
 //@   ensures err == nil ==> len(b1) == 36 && len(b2) == len(b1) && bytes_eq(b2, 0, b1, 0, len(b1))
+
+// LLDP (802.1AB): TLV header = 7-bit type, 9-bit length; chassis-id (type 1) and port-id (type 2) carry a subtype
+// byte and Length-1 id bytes, TTL (type 3) carries 16-bit seconds. The frame is the three TLVs in this order.
+//@ func lemmaLLDP(l) (d, n1, n2, err, b1) [C09]
+//@   inlinecalls
+//@   modreach
+//@   requires l != nil && l.Chassis.Type == 1 && l.Port.Type == 2 && l.TTL.Type == 3 && l.TTL.Length == 2 && len(l.Chassis.Data) >= 1 && len(l.Chassis.Data) <= 255 && int(l.Chassis.Length) == 1 + len(l.Chassis.Data) && len(l.Port.Data) >= 1 && len(l.Port.Data) <= 255 && int(l.Port.Length) == 1 + len(l.Port.Data)
+//@   ensures n1 == 3 + len(l.Chassis.Data) + 3 + len(l.Port.Data) + 4 && len(b1) == n1
+//@   ensures be16(b1, 0) == 512 + l.Chassis.Length && u8(b1, 2) == l.Chassis.Subtype && be16(b1, 3 + len(l.Chassis.Data)) == 1024 + l.Port.Length
+//@   ensures err == nil && n2 == n1 && d.Chassis.Subtype == l.Chassis.Subtype && d.Port.Subtype == l.Port.Subtype && d.TTL.Seconds == l.TTL.Seconds
